@@ -31,7 +31,9 @@ impl IoDriver {
     }
 
     pub(crate) async fn open(&self, path: impl AsRef<Path>) -> IOResult<File> {
-        File::from_file(path, |f| f.create(false).append(true).read(true)).await
+        // No O_APPEND: on Linux `pwrite` on an O_APPEND descriptor ignores the offset and appends at EOF, while
+        // records are addressed by the offset reserved from the size counter (the two differ after a failed write)
+        File::from_file(path, |f| f.create(false).write(true).read(true)).await
     }
 
     pub(crate) async fn create(&self, path: impl AsRef<Path>) -> IOResult<File> {
